@@ -190,6 +190,9 @@ def packet_families(rng, tier, scale=1.0):
     # pointer chains of mixed shape around the hop limit: runs of pointer-to-pointer steps reached through pointer-to-label steps
     for b in G.mixed_chain_family(thorough=(tier != "quick")):
         out.append(("mixed-chain", b))
+    # both limits of a name at once: 126 / 127 / 128 one-byte labels read through 15 / 16 / 17 hops (in one piece, and spread over the hops)
+    for b in G.limit_product_family(thorough=(tier != "quick")):
+        out.append(("limit-product", b))
     # reading that starts in the middle of earlier labels (pointer-like pairs and length-like bytes inside label contents)
     for b in G.misaligned_packets(rng, 1500 if tier == "quick" else 60000):
         out.append(("misaligned", b))
@@ -946,6 +949,23 @@ class C04(Prop):
         for i, (b, m) in enumerate(valid_packets(rng, 300 if tier == "quick" else 6000)):
             if not G.has_header_pointer(b) and len(G.wire_name(m.qname)) < 200:
                 cases.append(self.after_rename(rng, i, b, m))
+        # a question written as a pointer into the header, on an object that was decompressed first: the header setters and
+        # insertions that follow change the bytes the pointer went through, the question must not move with them
+        hp = G.header_pointer_packet()
+        a_rec = b"\xc0\x00" + struct.pack(">HHIH", 1, 1, 5, 4) + b"\1\2\3\4"
+        hps = [hp] + [hp[:10] + struct.pack(">H", len(extra)) + hp[12:] + b"".join(extra) for extra in ([a_rec], [a_rec, a_rec])]
+        k = len(cases)
+        for j in range(12 if tier == "quick" else 600):
+            b = hps[j % len(hps)]
+            ops = ["P," + hx(b)] + [rng.choice(["q0", "q1", "q2", "qt", "g"]) for _ in range(rng.randint(0, 2))]
+            ops += [rng.choice(["rc", "I,ar,%s" % hx(b"extra.example. 5 IN A 9.9.9.9")]), "b"]
+            ops += [rng.choice(["q0", "q1", "q2"]) for _ in range(rng.randint(1, 3))]
+            for _ in range(rng.randint(1, 3)):
+                ops += [rng.choice(["st,%d" % rng.choice([0x0162, 0x0261, 0x0041, rng.getrandbits(16)]), "sr,%d" % rng.randrange(16),
+                                    "so,%d" % rng.randrange(16), "I,ar,%s" % hx(b"more%d.example. 5 IN A 9.9.9.9" % rng.randrange(100))]), "b"]
+                ops += ["q0", "q1", "q2", "qt", "g"]
+            cases.append(Case("h%d" % k, "\t".join(ops), {"family": "header-pointer-decompressed", "pkt": b.hex()}))
+            k += 1
         step = 16 if tier == "quick" else 1
         q = [b"Example", b"COM"]
         k = len(cases)
@@ -980,8 +1000,10 @@ class C04(Prop):
                 if o != "OK":
                     return "inserting a question after the question was deleted: " + o[:120]
                 continue
-            if op == "rc" or op.startswith("W,"):
+            if op == "rc" or op.startswith(("W,", "st,", "sf,", "sr,", "so,", "sp,", "I,")):
                 exp, changed = None, True  # the bytes changed: the next `b` says what they are now
+                if op.startswith(("st,", "sf,", "sr,", "so,", "sp,", "I,")):
+                    continue
                 if op == "rc" and o != "OK":
                     return "recompute on an accepted packet: " + o
                 if op.startswith("W,") and ("ERR" in o or "PANIC" in o):
@@ -1494,6 +1516,36 @@ class HistProp(Prop):
                 out.append(self.finish(k0 + len(out), "P," + hx(b), bld, "special-qtype"))
         return out
 
+    def requestion_family(self, rng, k0):
+        """The question is deleted and another one inserted, on every shape of packet (each of the three record sections empty or not,
+        with and without OPT): where the question goes is decided by the first section offset that is present."""
+        out = []
+        q = [b"q", b"example"]
+        mk = lambda nm, t=1: G.RR([nm] + q, t, 1, 9, ("raw", bytes([10, 0, 0, 1])) if t == 1 else ("name", [b"ns"] + q))
+        for shape in range(8):
+            for with_opt in (False, True):
+                for layout in ("none", "greedy"):
+                    an = [mk(b"a1"), mk(b"a2")][: rng.randint(1, 2)] if shape & 1 else []
+                    ns = [mk(b"n1", 2), mk(b"n2", 2)][: rng.randint(1, 2)] if shape & 2 else []
+                    ar = [mk(b"r1"), mk(b"r2")][: rng.randint(1, 2)] if shape & 4 else []
+                    if with_opt:
+                        ar.insert(rng.randint(0, len(ar)), G.RR([], 41, 1232, 0x8000, ("opt", [])))
+                    b, _ = G.encode(rng, G.Msg(rng.getrandbits(16), 0x8180, q, 1, 1, an=an, ns=ns, ar=ar), layout)
+                    a = H.decode_bytes(b)
+                    if a is None:
+                        continue
+                    bld = H.Builder(rng, a, set())
+                    if rng.random() < 0.5:
+                        bld.getter_op(rng.choice(["q0", "q1"]))
+                    bld.question_walk_op("X")
+                    bld.second_question_op()
+                    bld.getter_op("q0")
+                    for si in range(3):
+                        bld.walk_op(si=si, mode="read", incl=True)
+                    bld.walk_op(si=rng.randrange(3), mode="mixed")
+                    out.append(self.finish(k0 + len(out), "P," + hx(b), bld, "requestion"))
+        return out
+
     def data_pointer_family(self, rng, k0):
         """Known-finding class data-pointer: TTL / address writes on records whose bytes a later name is read through."""
         out = []
@@ -1900,6 +1952,7 @@ class C08(HistProp):
             cases.append(self.finish(i, first, bld, fam))
         cases += self.data_pointer_family(rng, len(cases))
         cases += self.special_qtype_family(rng, len(cases))
+        cases += self.requestion_family(rng, len(cases))
         return cases
 
 
@@ -2131,6 +2184,39 @@ class C11(HistProp):
             for si in range(3):
                 bld.walk_op(si=si, mode="read", incl=True)
             cases.append(self.finish(k, first, bld, "delete-question-after-" + pre))
+            k += 1
+        # deleting from a walk after the object was brought to pointer-free form and then renamed as a whole (the rename compresses
+        # again: whether the cursor code knows is decided by a flag that three different operations have to keep right)
+        for i in range(40 if tier == "quick" else 6000):
+            first, a, flags = self.base(rng, kind="parsed")
+            bld = H.Builder(rng, a, flags)
+            nonempty = [si for si in range(3) if any(r.t != G.T_OPT for r in bld.a.secs[si])]
+            if not nonempty:
+                continue
+            # (an insertion into a query is left out: answer / authority records while QR = 0 are the known finding qr-gating, and the
+            # rename that follows would fail on them)
+            pre = rng.choice(["delete", "insert", "V", "recompute"] if bld.a.flags & 0x8000 else ["delete", "V", "recompute"])
+            if pre == "delete":
+                si = rng.choice(nonempty)
+                tags = [id(r) for r in bld.a.secs[si] if r.t != G.T_OPT]
+                bld.walk_op(si=si, mode="delete", incl=False, delete_set={rng.choice(tags)})
+            elif pre == "insert":
+                bld.insert_op()
+            elif pre == "V":
+                bld.walk_op(si=rng.choice(nonempty), mode="uncompress")
+            else:
+                bld.recompute_op()
+            bld.rename_op()
+            nonempty = [si for si in range(3) if any(r.t != G.T_OPT for r in bld.a.secs[si])]
+            if not nonempty:
+                continue
+            si = rng.choice(nonempty)
+            tags = [id(r) for r in bld.a.secs[si] if r.t != G.T_OPT]
+            dset = set(t for t in tags if rng.random() < 0.5) or {tags[0]}
+            bld.walk_op(si=si, mode="delete", incl=rng.random() < 0.5, delete_set=dset)
+            for sj in range(3):
+                bld.walk_op(si=sj, mode="read", incl=True)
+            cases.append(self.finish(k, first, bld, "delete-after-%s-rename" % pre))
             k += 1
         return cases
 
@@ -2638,7 +2724,7 @@ class C16(Prop):
         for t in steps:
             if t not in last or rng.random() < 0.55:
                 others = set(v for u, v in last.items() if u != t)
-                kinds = [k for k in range(7) if k not in others]
+                kinds = [k for k in range(13) if k not in others]
                 k = rng.choice(kinds)
                 last[t] = k
                 out.append("%d:f%d" % (t, k))
@@ -2672,6 +2758,13 @@ class C16(Prop):
             st = ["0:f0"] + ["%d:f%d" % (t, 1 + t % 4) for t in range(1, n)] + ["0:r"] + ["%d:r" % t for t in range(n - 1, 0, -1)] + ["0:r"]
             cases.append(Case("h%d" % k, "H,%d,%s" % (n, ".".join(st)), {"family": "many-threads"}))
             k += 1
+        # every ordered pair of the thirteen descriptions the failing calls produce: thread 0 fails with one, thread 1 with the other, both
+        # read (descriptions kept in a shared table under a key derived from the text collide for particular pairs only)
+        for i in range(13):
+            for j in range(13):
+                if i != j:
+                    cases.append(Case("h%d" % k, "H,2,0:f%d.1:f%d.0:r.1:r.0:r" % (i, j), {"family": "pairs"}))
+                    k += 1
         # thread 0 fails and stays alive, n short-lived threads then fail one after the other, thread 0 reads: a table of slots handed out
         # by a wrapping counter of any size up to n is detected (powers of two and their neighbours)
         for n in ((300, 4097) if tier == "quick" else (300, 4097, 65535, 65536, 65537, 131073)):
@@ -2694,12 +2787,15 @@ class C16(Prop):
         texts = ["Invalid_name_in_a_DNS_record:_Spurious_dot_in_a_label", "Invalid_name_in_a_DNS_record:_Label_too_long",
                  "Invalid_name_in_a_DNS_record:_Name_too_long", "Invalid_name_in_a_DNS_record:_Non-ASCII_character_in_a_label", "Parse_error",
                  "Invalid_DNS_packet:_A_DNS_packet_can_only_contain_up_to_one_question",
-                 "Invalid_name_in_a_DNS_record:_A_non-empty_name_cannot_start_with_a_NUL_byte"]
+                 "Invalid_name_in_a_DNS_record:_A_non-empty_name_cannot_start_with_a_NUL_byte",
+                 "Invalid_name_in_a_DNS_record:_Empty_name", "Invalid_name_in_a_DNS_record:_Invalid_internal_offset",
+                 "Invalid_name_in_a_DNS_record:_Forward/self_reference", "Invalid_name_in_a_DNS_record:_Label_length_too_long",
+                 "Invalid_name_in_a_DNS_record:_Out-of-bounds_name", "Invalid_name_in_a_DNS_record:_Unexpected_character_in_name"]
         last = {}
         for st, tok in zip(steps, toks):
             t, a = st.split(":")
             if a[0] == "f":
-                last[t] = texts[int(a[1:]) % 7]
+                last[t] = texts[int(a[1:]) % 13]
                 if tok != "rc=-1":
                     return "failing table call returned %s instead of -1" % tok
             else:
@@ -2810,6 +2906,57 @@ class C17(Prop):
             if tier != "quick":
                 long("long-history", n_mid, "C," + hx(rng.choice(plain)), "C," + hx(rng.choice(plain)), "C," + hx(zq))
                 long("long-history", n_mid, "U,%s,12" % hx(rng.choice(comp)), "U,%s,12" % hx(rng.choice(comp)), "P," + hx(zq))
+        # y = x with one small edit (a memo keyed on a lossy normal form of the argument answers x with what it kept for y):
+        # record texts with a blank inserted / doubled / removed (inside quoted strings too), a character changed, the case of a letter
+        # flipped; packets with one byte changed
+        def edit_text(t):
+            t = bytearray(t)
+            blanks = [i for i, c in enumerate(t) if c in (32, 9)]
+            inq, quoted = False, []
+            for i, c in enumerate(t):
+                if c == 34:
+                    inq = not inq
+                elif inq and c in (32, 9):
+                    quoted.append(i)
+            if quoted and rng.random() < 0.7:
+                blanks = quoted
+            kind = rng.randrange(5) if not quoted else rng.choice([0, 0, 1, 2, 3, 4])
+            if kind == 0 and blanks:
+                i = rng.choice(blanks)
+                t[i:i] = b" "
+            elif kind == 1 and blanks:
+                i = rng.choice(blanks)
+                t[i] = 9 if t[i] == 32 else 32
+            elif kind == 2 and len(t) > 2:
+                i = rng.randrange(len(t))
+                t[i:i] = bytes([rng.choice(b" x1.")])
+            elif kind == 3 and len(t) > 2:
+                i = rng.randrange(len(t))
+                if 65 <= (t[i] & 0xDF) <= 90:
+                    t[i] ^= 0x20
+                else:
+                    t[i] = rng.choice(b"abz09")
+            elif len(t) > 2:
+                del t[rng.randrange(len(t))]
+            return bytes(t)
+        for i in range(150 if tier == "quick" else 20000):
+            r1 = T.rand_record(rng)
+            if rng.random() < 0.5:
+                words = [bytes(rng.choice(b"ab c") for _ in range(rng.randint(1, 8))) for _ in range(rng.randint(1, 3))]
+                xt = b"%s. %d IN TXT %s" % (rng.choice([b"x", b"txt.example", b"a.b"]), rng.randrange(1000), b" ".join(b'"' + w + b'"' for w in words))
+            else:
+                xt = T.render(rng, r1)
+            add("near-duplicate", "Y," + hx(xt), "Y," + hx(edit_text(xt)))
+        for i in range(60 if tier == "quick" else 8000):
+            x = rng.choice(comp)
+            y = bytearray(x)
+            y[rng.randrange(len(y))] ^= 1 << rng.randrange(8)
+            add("near-duplicate", "P," + hx(x), "P," + hx(bytes(y)))
+            add("near-duplicate", "U,%s,12" % hx(x), "U,%s,12" % hx(bytes(y)))
+            x = rng.choice(plain)
+            y = bytearray(x)
+            y[rng.randrange(12, len(y))] ^= 1 << rng.randrange(8)
+            add("near-duplicate", "C," + hx(x), "C," + hx(bytes(y)))
         ops = lambda: rng.choice(["P," + hx(rng.choice(comp)), "U,%s,12" % hx(rng.choice(comp)), "C," + hx(rng.choice(plain)),
                                   "R,%s,%s,%s,1" % (hx(rng.choice(comp + plain)), hx(G.wire_name([b"new", b"name"])), hx(G.wire_name([rng.choice([b"com", b"org", b"example"])])))])
         for i in range(n):
